@@ -5,7 +5,7 @@
    where x_K is the K-th iterate of the loop run without its stopping rule (tol = 0) and F_j the penalised objective
    of column j.  With t_K >= (K+1)/2:  F_j(x_K) - F_j(s) <= 2 |x_0 - s|^2 / (lr (K+1)^2). *)
 From Coq Require Import List Arith Bool Reals Lra Lia Psatz.
-From TLV Require Import Base.Ops Base.PyList Base.Tensor Base.RSum Model.Nnls Proofs.NnlsProofs Proofs.NnlsProofsFista Proofs.NnlsProofsEps.
+From TLV Require Import Base.Ops Base.PyList Base.Tensor Base.RSum Model.Nnls Proofs.NnlsProofs Proofs.NnlsProofsFista Proofs.NnlsProofsEps Proofs.NnlsProofsConv.
 Import ListNotations.
 Open Scope R_scope.
 
@@ -289,3 +289,74 @@ Qed.
 Lemma tseq_props : tseq 0 = 0 /\ tseq 1 = 1 /\
   forall k, tseq (S k) ^ 2 - tseq (S k) = tseq k ^ 2 /\ 1 <= tseq (S k) /\ (INR (S k) + 1) / 2 <= tseq (S k).
 Proof. split; [reflexivity|]. split; [exact tseq_1|]. intros k. destruct (tseq_facts k) as (_ & A & B & _). split; [exact A|]. split; [exact B | apply tseq_lower]. Qed.
+
+(* ---------- the ITERATES converge to the solution (well-conditioned problem) ---------- *)
+(* strong convexity at a KKT point X (bound eps): for every x >= eps,  f x - f X >= (x - X)'G(x - X)/2 + ridge |x - X|^2 *)
+Lemma kkt_strong_gap n (G : nat -> nat -> R) b l1 l2 eps (X x : nat -> R) :
+  (forall i j, G i j = G j i) ->
+  (forall i, (i < n)%nat -> eps <= X i /\ 0 <= qp_grad n G b l1 l2 X i /\ (X i - eps) * qp_grad n G b l1 l2 X i = 0) ->
+  (forall i, (i < n)%nat -> eps <= x i) ->
+  quad n G (fun i => x i - X i) / 2 + l2 * rsum n (fun i => (x i - X i)^2) <= qp_f n G b l1 l2 x - qp_f n G b l1 l2 X.
+Proof.
+  intros Gsym HK Hx. rewrite (qp_diff n G b l1 l2 Gsym X x). cbv zeta.
+  assert (0 <= rsum n (fun i => (x i - X i) * qp_grad n G b l1 l2 X i)); [|lra].
+  apply rsum_nonneg. intros i Hi. destruct (HK i Hi) as (A & B & C). specialize (Hx i Hi).
+  replace ((x i - X i) * qp_grad n G b l1 l2 X i) with ((x i - eps) * qp_grad n G b l1 l2 X i - (X i - eps) * qp_grad n G b l1 l2 X i) by ring.
+  rewrite C. nra.
+Qed.
+
+(* with mu > 0 a lower bound of the penalised form (mu |d|^2 <= d'Gd + 2 ridge |d|^2: the well-conditioned problem of the property) the
+   point returned by fista -- any tol, stopped at iteration m -- is within 4 |x0 - X|^2 / (mu lr (m+1)^2) of the solution X in squared
+   distance: the iterates themselves converge, with rate O(1/m), and X is the only limit *)
+Theorem fista_distance_rate UtM UtU r n sp rd lr tol eps mu j (X : mat) K' (x0 : mat) :
+  wfm r r UtU -> wfm r n UtM -> (j < n)%nat -> (forall i k, Gf UtU i k = Gf UtU k i) -> (forall d, 0 <= quad r (Gf UtU) d) ->
+  0 <= rd -> 0 < lr ->
+  (forall d : nat -> R, lr * (quad r (Gf UtU) d + 2 * rd * rsum r (fun i => (d i)^2)) <= rsum r (fun i => (d i)^2)) ->
+  (forall d : nat -> R, mu * rsum r (fun i => (d i)^2) <= quad r (Gf UtU) d + 2 * rd * rsum r (fun i => (d i)^2)) ->
+  (forall i, (i < r)%nat -> eps <= Mget X i j /\ 0 <= qp_grad r (Gf UtU) (bf UtM j) sp rd (colf X j) i /\
+                            (Mget X i j - eps) * qp_grad r (Gf UtU) (bf UtM j) sp rd (colf X j) i = 0) ->
+  wfm r n x0 ->
+  let y := fista Rops UtM UtU n true sp rd lr tol eps x0 (map (beta_of tseq) (seq 0 (S K'))) in
+  exists m, (1 <= m <= S K')%nat /\
+    lr * (INR m + 1)^2 * (mu * rsum r (fun i => (Mget y i j - Mget X i j)^2)) <= 4 * rsum r (fun i => (Mget x0 i j - Mget X i j)^2).
+Proof.
+  intros WG WB Hj Gsym Gpsd Hrd Hlr HL Hmu XK W y.
+  destruct (fista_rate_any_tol UtM UtU r n sp rd lr tol eps j X K' x0 WG WB Hj Gsym Gpsd Hrd Hlr HL XK W) as (m & Hm & G0 & G1).
+  cbv zeta in G0, G1. fold y in G0, G1. exists m. split; [exact Hm|].
+  assert (Fy : forall i, (i < r)%nat -> eps <= colf y j i).
+  { intros i Hi. unfold colf, y. apply (fista_ge_eps UtM UtU r n sp rd lr tol eps WG WB x0); auto. cbn. discriminate. }
+  pose proof (kkt_strong_gap r (Gf UtU) (bf UtM j) sp rd eps (colf X j) (colf y j) Gsym XK Fy) as SG.
+  pose proof (Hmu (fun i => colf y j i - colf X j i)) as M1. cbv beta in M1.
+  set (D2 := rsum r (fun i => (Mget y i j - Mget X i j)^2)) in *.
+  change (rsum r (fun i => (colf y j i - colf X j i)^2)) with D2 in SG, M1.
+  set (gap := qp_f r (Gf UtU) (bf UtM j) sp rd (colf y j) - qp_f r (Gf UtU) (bf UtM j) sp rd (colf X j)) in *.
+  assert (Hg : mu * D2 <= 2 * gap) by lra.
+  assert (HP : 0 <= lr * (INR m + 1)^2) by (apply Rmult_le_pos; [lra | apply pow2_ge_0]).
+  assert (lr * (INR m + 1)^2 * (mu * D2) <= lr * (INR m + 1)^2 * (2 * gap)) by (apply Rmult_le_compat_l; assumption).
+  lra.
+Qed.
+
+(* distance to a KKT point bounds the KKT residuals: with E_i = sum_l |G[i,l]| |y_l - X_l| + 2 ridge |y_i - X_i|,
+   gradient_i(y) >= - E_i  and  |(y_i - eps) gradient_i(y)| <= |y_i - eps| E_i + |y_i - X_i| gradient_i(X);
+   with fista_distance_rate: the KKT residuals of the returned points tend to zero like O(1/m) *)
+Lemma kkt_residual_from_distance n (G : nat -> nat -> R) b l1 l2 eps (X y : nat -> R) i : (i < n)%nat -> 0 <= l2 ->
+  eps <= X i -> 0 <= qp_grad n G b l1 l2 X i -> (X i - eps) * qp_grad n G b l1 l2 X i = 0 ->
+  let E := rsum n (fun l => Rabs (G i l) * Rabs (y l - X l)) + 2 * l2 * Rabs (y i - X i) in
+  - E <= qp_grad n G b l1 l2 y i /\
+  Rabs ((y i - eps) * qp_grad n G b l1 l2 y i) <= Rabs (y i - eps) * E + Rabs (y i - X i) * qp_grad n G b l1 l2 X i.
+Proof.
+  intros Hi Hl2 HX HG HC E.
+  pose proof (qp_grad_diff n G b l1 l2 X y i) as D.
+  assert (B : Rabs (qp_grad n G b l1 l2 y i - qp_grad n G b l1 l2 X i) <= E).
+  { rewrite D. eapply Rle_trans; [apply Rabs_triang|]. unfold E. apply Rplus_le_compat.
+    - eapply Rle_trans; [apply rsum_abs|]. apply rsum_le. intros l _. rewrite Rabs_mult. lra.
+    - rewrite !Rabs_mult. rewrite (Rabs_pos_eq 2) by lra. rewrite (Rabs_pos_eq l2) by exact Hl2. lra. }
+  set (gy := qp_grad n G b l1 l2 y i) in *. set (gX := qp_grad n G b l1 l2 X i) in *.
+  assert (B2 : - E <= gy - gX <= E) by (revert B; unfold Rabs; destruct (Rcase_abs (gy - gX)); intros; lra).
+  split; [lra|].
+  assert (EQ : (y i - eps) * gy = (y i - eps) * (gy - gX) + (y i - X i) * gX).
+  { replace ((y i - eps) * (gy - gX) + (y i - X i) * gX) with ((y i - eps) * gy - (X i - eps) * gX) by ring. fold gX in HC. rewrite HC. ring. }
+  rewrite EQ.
+  eapply Rle_trans; [apply Rabs_triang|]. rewrite !Rabs_mult. rewrite (Rabs_pos_eq gX) by exact HG.
+  apply Rplus_le_compat; [|lra]. apply Rmult_le_compat_l; [apply Rabs_pos | exact B].
+Qed.
